@@ -412,14 +412,18 @@ fn get_code_style_sections<'b>(
     path: &str,
     line_number: Option<usize>,
 ) -> Option<StyleSectionSpecifier<'b>> {
-    if let Some(prefix_end) = ansi::ansi_preserving_index(
+    if let Some(code) = ansi::ansi_preserving_index(
         raw_line,
         match line_number {
             Some(n) => format!("{}:{}:", path, n).len() - 1,
             None => path.len(),
         },
-    ) {
-        let match_style_sections = ansi::parse_style_sections(&raw_line[(prefix_end + 1)..])
+    )
+    // The byte after the prefix is a separator in well-formed input; `get` declines to slice
+    // inside a multi-byte character in any other input.
+    .and_then(|prefix_end| raw_line.get((prefix_end + 1)..))
+    {
+        let match_style_sections = ansi::parse_style_sections(code)
             .iter()
             .map(|(ansi_term_style, s)| {
                 if ansi_term_style.is_bold
